@@ -47,3 +47,17 @@ func (h *Handler) VerifPumpOutput(peerID identity.AgentID, streamID uint64, key 
 	}
 	h.pumpOutput(ss, func() io.Reader { return r }, enc)
 }
+
+// VerifSessionKeys returns the key bytes of every session key this handler
+// currently holds (sessionKey is written once, when the stream is created).
+func (h *Handler) VerifSessionKeys() [][crypto.KeySize]byte {
+	h.mu.RLock()
+	defer h.mu.RUnlock()
+	var out [][crypto.KeySize]byte
+	for _, ss := range h.streams {
+		if ss.sessionKey != nil {
+			out = append(out, ss.sessionKey.VerifKeyBytes())
+		}
+	}
+	return out
+}
